@@ -84,7 +84,7 @@ def fcbatch_check(res, thorough, kinds=None, cases=None, timeout=600):
             res.violation("fcbatch:%s:driver-hang" % kind, {"kind": "hang", "cmd": cmd, "last_output": partial[-1500:],
                                                             "note": "the last line is the case that did not return (text left of `->`)"})
             continue
-        lines = [l for l in out.split("\n") if " -> " in l]
+        lines = [l for l in out.split("\n") if " -> " in l and l.split(" -> ", 1)[1].strip()]
         if rc != 0:
             # the input is flushed before the library is entered: the last (unfinished) line is the crashing case
             last = out.rstrip("\n").split("\n")[-1] if out else ""
